@@ -655,13 +655,22 @@ def walk_path(ev, entry_locked, derived):
             locked = False
         elif e == "K":
             if not locked:
-                just = [g for g in guards_false if "->" in g or g in derived]
+                # X->field NULL / local derived from the object NULL: object not attached to a context;
+                # coap_started == 0: the library is being started, coap_lock_lock_func() refuses
+                # every other caller until then
+                just = [g for g in guards_false if "->" in g or g in derived or g == "coap_started"]
                 if just:
                     used.append(just[-1])
                 else:
                     problems.append("*_lkd function called without the lock" +
                                     (" (guarded only by the caller-supplied %s)" % ", ".join(guards_false)
                                      if guards_false else ""))
+        elif e == "I":
+            # (re-)initialising global_lock is only allowed once, before the library is started:
+            # coap_startup() is documented to ignore repeated calls, and another thread may own
+            # the mutex by then
+            if seen.get("coap_started") != "F":
+                problems.append("global_lock (re-)initialised without a preceding 'coap_started already set -> return' guard")
         elif e in ("R", "E"):
             if locked != entry_locked:
                 problems.append("returns with the lock %s" % ("held" if locked else "released"))
@@ -692,6 +701,8 @@ def api_events(toks):
                 continue
             if t.endswith("_lkd") or t.endswith("_locked"):
                 ev.append("K")
+            if t == "coap_lock_init":
+                ev.append("I")
         i += 1
     return tuple(ev)
 
@@ -718,7 +729,7 @@ def scan_api(repo, compiled_srcs=()):
             continue
         for name, hdr, toks, off in funcs:
             is_api = re.search(r"\bCOAP_API\b", hdr) is not None
-            uses = "coap_lock_lock" in toks or "coap_lock_unlock" in toks
+            uses = "coap_lock_lock" in toks or "coap_lock_unlock" in toks or "coap_lock_init" in toks
             if not is_api and not (uses and rel in compiled):
                 continue
             entry_locked = (not is_api) and name.endswith("_lkd")
@@ -745,7 +756,7 @@ def scan_api(repo, compiled_srcs=()):
                 rec["verdict"] = "bad"
                 rec["problems"] = sorted(set(problems))
                 ok = False
-            elif not any("L" in x or "U" in x for x in shapes):
+            elif not any("L" in x or "U" in x for x in shapes) and not any("I" in x for x in shapes):
                 rec["verdict"] = "no-lock-needed" if not any("K" in x for x in shapes) else "bad"
                 if rec["verdict"] == "bad":
                     ok = False
